@@ -385,6 +385,8 @@ impl ThreadPool {
         F: FnOnce() + Send + 'static,
     {
         let job = Box::new(f);
+        #[cfg(varlink_rust_verif)]
+        verif::probe(verif::PoolEvent::ExecEnter);
         // a job counts as busy from the moment it is queued, so that a burst of
         // submissions is not judged by a counter the workers have not caught up with
         let outstanding = {
@@ -392,13 +394,23 @@ impl ThreadPool {
             *num_busy += 1;
             *num_busy
         };
+        #[cfg(varlink_rust_verif)]
+        verif::probe(verif::PoolEvent::ExecCounted);
         self.sender.send(Message::NewJob(job)).unwrap();
+        #[cfg(varlink_rust_verif)]
+        verif::probe(verif::PoolEvent::ExecQueued);
+        #[cfg(varlink_rust_verif)]
+        let verif_workers_before = self.workers.len();
         if (outstanding > self.workers.len()) && (self.workers.len() < self.max_workers) {
             self.workers.push(Worker::new(
                 Arc::clone(&self.receiver),
                 Arc::clone(&self.num_busy),
             ));
         }
+        #[cfg(varlink_rust_verif)]
+        verif::probe(verif::PoolEvent::ExecDecided {
+            grew: self.workers.len() != verif_workers_before,
+        });
     }
 
     pub fn num_busy(&self) -> usize {
@@ -428,17 +440,27 @@ struct Worker {
 impl Worker {
     fn new(receiver: Arc<Mutex<mpsc::Receiver<Message>>>, num_busy: Arc<RwLock<usize>>) -> Worker {
         let thread = thread::spawn(move || loop {
+            #[cfg(varlink_rust_verif)]
+            verif::probe(verif::PoolEvent::WorkerWait);
             let message = receiver.lock().unwrap().recv().unwrap();
 
             match message {
                 Message::NewJob(job) => {
+                    #[cfg(varlink_rust_verif)]
+                    verif::probe(verif::PoolEvent::WorkerGotJob);
                     job.call_box();
+                    #[cfg(varlink_rust_verif)]
+                    verif::probe(verif::PoolEvent::WorkerJobDone);
                     {
                         let mut num_busy = num_busy.write().unwrap();
                         *num_busy -= 1;
                     }
+                    #[cfg(varlink_rust_verif)]
+                    verif::probe(verif::PoolEvent::WorkerIdle);
                 }
                 Message::Terminate => {
+                    #[cfg(varlink_rust_verif)]
+                    verif::probe(verif::PoolEvent::WorkerTerminate);
                     break;
                 }
             }
@@ -613,5 +635,68 @@ pub fn listen<S: ?Sized + AsRef<str>, H: crate::ConnectionHandler + Send + Sync 
                 }
             }
         });
+    }
+}
+
+/// Probes for the verification harness; compiled only with `--cfg varlink_rust_verif`.
+#[cfg(varlink_rust_verif)]
+pub mod verif {
+    use std::sync::{Arc, RwLock};
+
+    /// Points of the thread pool at which an installed callback is invoked (it may block).
+    #[derive(Clone, Copy, Debug, PartialEq, Eq, Hash)]
+    pub enum PoolEvent {
+        /// execute(): entered, nothing done yet
+        ExecEnter,
+        /// execute(): the job has been counted, not yet queued
+        ExecCounted,
+        /// execute(): the job is queued, the growth decision not yet taken
+        ExecQueued,
+        /// execute(): growth decision taken
+        ExecDecided { grew: bool },
+        /// worker: about to wait for a message
+        WorkerWait,
+        /// worker: dequeued a job, about to run it
+        WorkerGotJob,
+        /// worker: the job returned, the busy counter not yet decremented
+        WorkerJobDone,
+        /// worker: busy counter decremented
+        WorkerIdle,
+        /// worker: received the terminate message
+        WorkerTerminate,
+    }
+
+    type Callback = Arc<dyn Fn(PoolEvent) + Send + Sync>;
+
+    static CALLBACK: RwLock<Option<Callback>> = RwLock::new(None);
+
+    /// Install (or remove) the probe callback.
+    pub fn set_callback(cb: Option<Callback>) {
+        *CALLBACK.write().unwrap() = cb;
+    }
+
+    pub(crate) fn probe(ev: PoolEvent) {
+        let cb = CALLBACK.read().unwrap().clone();
+        if let Some(cb) = cb {
+            cb(ev);
+        }
+    }
+
+    /// Public wrapper so that the private pool can be driven without sockets.
+    pub struct Pool(super::ThreadPool);
+
+    impl Pool {
+        pub fn new(initial_worker: usize, max_workers: usize) -> Pool {
+            Pool(super::ThreadPool::new(initial_worker, max_workers))
+        }
+        pub fn execute<F: FnOnce() + Send + 'static>(&mut self, f: F) {
+            self.0.execute(f)
+        }
+        pub fn num_busy(&self) -> usize {
+            self.0.num_busy()
+        }
+        pub fn num_workers(&self) -> usize {
+            self.0.workers.len()
+        }
     }
 }
